@@ -727,229 +727,3 @@ Proof.
   split; [repeat constructor|]. split; [vm_compute; reflexivity|].
   split; [vm_compute; discriminate|]. split; vm_compute; reflexivity.
 Qed.
-
-(** * Sender side: accounting of the octets written
-      (every octet the socket accepted, or that is still in one of the two
-      transmit buffers, comes from the encoding of a sent frame, in order) *)
-
-Definition tv (s : ep) := (wire s, conn_tx s, msg_tx s, sent s).
-Definition balv (v : bytes * bytes * bytes * list frame) : Prop :=
-  let '(w, c, m, snt) := v in w ++ c ++ m = enc snt.
-Definition bal (s : ep) : Prop := balv (tv s).
-
-Ltac bal_norm := repeat match goal with |- bal (set ?p ?f ?x) => change (bal x) end.
-
-Lemma tv_bal a b : tv a = tv b -> bal b -> bal a.
-Proof. unfold bal. intros ->. auto. Qed.
-
-Lemma bal_emit e s : bal s -> bal (emit e s). Proof. exact (fun H => H). Qed.
-Lemma bal_set_state st s : bal s -> bal (set_state st s).
-Proof. unfold set_state. destruct (state s =? st); exact (fun H => H). Qed.
-Lemma bal_ka_reset s : bal s -> bal (ka_reset s). Proof. exact (fun H => H). Qed.
-Lemma bal_idle_reset s : bal s -> bal (idle_reset s). Proof. exact (fun H => H). Qed.
-Lemma bal_send_ready s : bal s -> bal (send_ready s).
-Proof. unfold send_ready. destruct (io_set s); match goal with |- context [if ?c then _ else _] => destruct c end; exact (fun H => H). Qed.
-Lemma bal_send_frame f s : bal s -> bal (send_frame f s).
-Proof.
-  intros H. unfold send_frame. apply bal_idle_reset, bal_ka_reset, bal_send_ready.
-  unfold bal, tv, balv in *. cbn [wire conn_tx msg_tx sent set].
-  rewrite enc_snoc, <- H, <- !app_assoc. reflexivity.
-Qed.
-Lemma bal_send_msg m s : bal s -> bal (send_msg m s). Proof. apply bal_send_frame. Qed.
-Lemma bal_do_close s : bal s -> bal (do_close s).
-Proof.
-  intros H. unfold do_close. cbv zeta.
-  match goal with |- context [if ?c then _ else _] => destruct c end; [exact H|].
-  apply bal_emit. match goal with |- context [if ?c then _ else _] => destruct c end; exact H.
-Qed.
-Lemma bal_pq_trigger s : bal s -> bal (pq_trigger s).
-Proof. unfold pq_trigger. destruct (pq_set s); exact (fun H => H). Qed.
-Lemma bal_sbd n s : bal s -> bal (send_buffer_decreased n s).
-Proof. unfold send_buffer_decreased. destruct (_ <? _); [apply bal_pq_trigger|exact (fun H => H)]. Qed.
-Lemma bal_check_sess_term s : bal s -> bal (check_sess_term s).
-Proof. unfold check_sess_term. destruct (_ && _); [apply bal_do_close|exact (fun H => H)]. Qed.
-Lemma bal_send_contact_header s : bal s -> bal (send_contact_header s). Proof. apply bal_send_frame. Qed.
-Lemma bal_send_sess_init s : bal s -> bal (send_sess_init s).
-Proof. intros H. unfold send_sess_init. cbv zeta. bal_norm. apply bal_send_msg. exact H. Qed.
-Lemma bal_send_sess_term r b s : bal s -> bal (fst (send_sess_term r b s)).
-Proof.
-  intros H. unfold send_sess_term. destruct (negb (in_sess s)); [exact H|]. destruct (in_term s); [exact H|].
-  cbv zeta. cbn [fst ok]. apply bal_send_msg, bal_set_state. bal_norm. exact H.
-Qed.
-Lemma bal_escape r : bal (fst r) -> bal (escape r).
-Proof. destruct r as [s [k|]]; exact (fun H => H). Qed.
-Lemma bal_send_next s : bal s -> bal (send_next s).
-Proof.
-  intros H. unfold send_next. destruct (tx_tmp s) as [[id data]|]; [|exact H].
-  cbv zeta. destruct (_ && _); [exact H|].
-  match goal with |- context [if ?c then _ else _] => destruct c end.
-  - apply bal_pq_trigger. bal_norm. apply bal_send_msg. bal_norm. exact H.
-  - apply bal_send_msg. bal_norm. exact H.
-Qed.
-Lemma bal_process_queue s : bal s -> bal (fst (process_queue s)).
-Proof.
-  intros H. unfold process_queue. cbv zeta. cbn [tx_tmp in_sess in_term pend_start set].
-  destruct (tx_tmp s) as [p|] eqn:T.
-  - cbn [fst]. apply bal_send_next. bal_norm. exact H.
-  - destruct (negb (in_sess s)); [exact H|]. destruct (in_term s); [exact H|].
-    destruct (pend_start s) as [|[id data] rest]; [exact H|].
-    cbn [fst]. apply bal_send_next, bal_emit. bal_norm. exact H.
-Qed.
-Lemma bal_merge_session_params s : bal s -> bal (fst (merge_session_params s)).
-Proof.
-  intros H. unfold merge_session_params.
-  destruct (sessinit_this s) as [this|]; [|exact H].
-  destruct (sessinit_peer s) as [peer|]; [|exact H].
-  destruct (negb (ascii (si_nodeid peer))); exact H.
-Qed.
-Lemma bal_flush_fold (l : list (N * bytes)) : forall s0, bal s0 ->
-  bal (fold_left (fun s (it : N * bytes) =>
-               emit (ESig SigSendFinished [PStrNum (fst it); PInt 0; PStr RES_TERMINATING])
-                    (s <| tx_map := dict_del (fst it) (tx_map s) |>)) l s0).
-Proof. induction l as [|it l IH]; intros s0 H; cbn [fold_left]; [exact H|]. apply IH. exact H. Qed.
-Lemma bal_flush_pend_start s : bal s -> bal (flush_pend_start s).
-Proof. intros H. unfold flush_pend_start. apply bal_flush_fold. exact H. Qed.
-
-Lemma bal_tx_proxy a s : bal s -> bal (fst (tx_proxy a s)).
-Proof.
-  intros H. unfold tx_proxy.
-  match goal with |- context [if ?c then ?x else ?y] =>
-    assert (H1 : bal (fst (if c then x else y))) end.
-  { destruct (_ <? CHUNK); cbn [fst]; [|exact H].
-    match goal with |- bal (set conn_tx ?f ?x) =>
-      assert (T : tv (set conn_tx f x) = (wire s, conn_tx s ++ firstn chunk_nat (msg_tx s), skipn chunk_nat (msg_tx s), sent s)) end.
-    { unfold tv. cbn [wire conn_tx msg_tx sent set].
-      match goal with |- context [send_buffer_decreased ?n ?y] =>
-        assert (S1 : tv (send_buffer_decreased n y) = tv y)
-          by (unfold send_buffer_decreased, pq_trigger; destruct (_ <? _); [destruct (pq_set y)|]; reflexivity) end.
-      unfold tv in S1. injection S1 as -> -> -> ->. reflexivity. }
-    unfold bal. rewrite T. unfold bal, tv, balv in *.
-    rewrite <- H, <- !app_assoc, firstn_skipn. reflexivity. }
-  match goal with |- context [if ?c then ?x else ?y] => destruct (if c then x else y) as [s1 ue] end.
-  cbn [fst] in H1. destruct (is_nil (conn_tx s1)); [exact H1|].
-  cbv zeta. destruct (_ =? 0); cbn [fst]; [apply bal_do_close; exact H1|].
-  unfold bal, tv, balv in *. cbn [wire conn_tx msg_tx sent set].
-  rewrite <- H1, <- !app_assoc. rewrite (app_assoc (firstn _ _)), firstn_skipn. reflexivity.
-Qed.
-
-Ltac bal_auto H :=
-  repeat first
-    [ exact H
-    | progress bal_norm
-    | apply bal_check_sess_term | apply bal_emit | apply bal_send_msg | apply bal_set_state
-    | apply bal_pq_trigger | apply bal_flush_pend_start | apply bal_send_sess_init | apply bal_do_close ].
-
-Lemma bal_handle_msg m s : bal s -> bal (fst (handle_msg m s)).
-Proof.
-  intros H. destruct m; unfold handle_msg.
-  - destruct (negb (in_sess s)); [exact H|].
-    destruct (has_start flags).
-    + cbv zeta. destruct (has_end flags); cbn [fst]; bal_auto H.
-    + destruct (rx_tmp s) as [[cur acc]|]; [|exact H].
-      destruct (cur =? xid); [|exact H].
-      cbv zeta. destruct (has_end flags); cbn [fst]; bal_auto H.
-  - destruct (negb (in_sess s)); [exact H|].
-    destruct (dict_get xid (tx_map s)); [|exact H].
-    cbv zeta. destruct (has_end flags).
-    + cbn [pend_ack set]. destruct (negb (mem_N xid (pend_ack s))); cbn [fst]; bal_auto H.
-    + cbn [fst]. bal_auto H.
-  - destruct (negb (in_sess s)); [exact H|].
-    destruct (dict_get xid (tx_map s)); [|exact H].
-    cbv zeta. cbn [tx_tmp set emit].
-    destruct (tx_tmp s) as [[cur d]|]; [destruct (cur =? xid)|]; cbn [fst]; bal_auto H.
-  - exact H.
-  - destruct (negb (in_sess s)); [exact H|].
-    destruct (in_term s).
-    + cbn [fst]. bal_auto H.
-    + pose proof (bal_send_sess_term reason true s H) as H1.
-      destruct (send_sess_term reason true s) as [s1 [k|]]; cbn [fst] in *; [exact H1|].
-      bal_auto H1.
-  - exact H.
-  - cbv zeta.
-    match goal with |- context [merge_session_params ?x] =>
-      assert (H1 : bal x) by (destruct (c_passive (cf s)); bal_auto H);
-      pose proof (bal_merge_session_params x H1) as H2; destruct (merge_session_params x) as [s1 [k|]] end;
-      cbn [fst] in *; bal_auto H2.
-Qed.
-
-Lemma bal_recv_frame f s : bal s -> bal (fst (recv_frame f s)).
-Proof.
-  intros H. destruct f as [c|m]; unfold recv_frame.
-  - destruct (negb (bytes_eqb (ch_magic c) MAGIC)); [cbn [fst ok]; bal_auto H|].
-    destruct (negb (ch_version c =? 4)); [cbn [fst ok]; bal_auto H|].
-    cbv zeta.
-    set (s1 := if c_passive (cf s) then (send_contact_header s) <| conhead_this := Some (contact_flags s) |> else s).
-    assert (H1 : bal s1).
-    { unfold s1. destruct (c_passive (cf s)); [|exact H]. bal_norm. apply bal_send_contact_header. exact H. }
-    destruct (conhead_this s1); [|exact H1].
-    match goal with |- context [set_state ST_SESSNEG ?x] => set (s3 := set_state ST_SESSNEG x) end.
-    assert (H3 : bal s3) by (unfold s3; apply bal_set_state; bal_norm; exact H1).
-    destruct (c_require_tls (cf s3)) as [[|]|]; [|destruct (c_passive (cf s3))|destruct (c_passive (cf s3))];
-      cbn [fst ok]; bal_auto H3.
-  - pose proof (bal_handle_msg m s H) as H1.
-    destruct (handle_msg m s) as [s1 [|reason|k]]; cbn [fst] in *; unfold ok, raise; cbn [fst]; bal_auto H1.
-Qed.
-
-Lemma bal_recv_loop : forall fuel s, bal s -> bal (fst (recv_loop fuel s)).
-Proof.
-  induction fuel as [|fuel IH]; intros s H; cbn [recv_loop]; [exact H|].
-  destruct (is_nil (rx_buf s) || closed s); [exact H|].
-  destruct (parse_frame (in_conn s) (rx_buf s)) as [[fr rest]|]; [|exact H].
-  match goal with |- context [recv_frame fr ?x] =>
-    assert (H1 : bal x) by (bal_norm; exact H);
-    pose proof (bal_recv_frame fr x H1) as H2; destruct (recv_frame fr x) as [s1 [k|]] end;
-    cbn [fst] in *; [exact H2|]. apply IH. exact H2.
-Qed.
-
-Lemma bal_step s o : bal s -> bal (step s o).
-Proof.
-  intros H. destruct o; unfold step.
-  - destruct (closed s); [exact H|].
-    destruct (negb (state s =? ST_CONNECTING)); [exact H|].
-    cbv zeta. apply bal_set_state.
-    destruct (c_passive (cf s)); [exact H|]. bal_norm. apply bal_send_contact_header. exact H.
-  - destruct (closed s); [exact H|]. cbv zeta. apply bal_emit, bal_pq_trigger. bal_norm. exact H.
-  - destruct (closed s); [exact H|].
-    destruct (negb (in_sess s)); [apply bal_do_close; exact H|].
-    apply bal_escape, bal_send_sess_term. exact H.
-  - destruct (closed s); [exact H|]. apply bal_do_close. exact H.
-  - destruct (closed s); [exact H|].
-    destruct (dict_get id (rx_map s)); [apply bal_emit; bal_norm; exact H|apply bal_emit; exact H].
-  - destruct (closed s); [exact H|].
-    match goal with |- context [if ?c then _ else _] => destruct c end; [|exact H].
-    cbv zeta.
-    assert (H0 : bal (s <| pend_set := false |>)) by (bal_norm; exact H).
-    pose proof (bal_tx_proxy accept _ H0) as H1.
-    destruct (tx_proxy accept (s <| pend_set := false |>)) as [s1 cont]. cbn [fst] in H1.
-    destruct cont; [exact H1|]. destruct idle; bal_norm; exact H1.
-  - destruct (closed s); [exact H|].
-    destruct (is_nil data || negb (rx_alive s)); [exact H|].
-    unfold recv_raw. cbv zeta.
-    match goal with |- context [recv_loop ?f ?x] =>
-      assert (H0 : bal x) by (bal_norm; apply bal_idle_reset; bal_norm; exact H);
-      pose proof (bal_recv_loop f x H0) as H1; destruct (recv_loop f x) as [s1 [k|]] end;
-      cbn [fst] in H1; [apply bal_emit; bal_norm; exact H1|exact H1].
-  - destruct (closed s); [exact H|]. destruct (rx_alive s); [apply bal_do_close; exact H|exact H].
-  - destruct (closed s); [exact H|].
-    match goal with |- context [if ?c then _ else _] => destruct c end; [|exact H].
-    pose proof (bal_process_queue s H) as H1.
-    destruct (process_queue s) as [s1 keep]. cbn [fst] in H1.
-    destruct keep; bal_norm; exact H1.
-  - destruct (closed s); [exact H|].
-    destruct (ka_due s) as [due|]; [|exact H].
-    destruct (due <=? now s); [|exact H]. apply bal_send_msg. bal_norm. exact H.
-  - destruct (closed s); [exact H|].
-    destruct (idle_due s) as [due|]; [|exact H].
-    destruct (due <=? now s); [|exact H]. cbv zeta. cbn [in_term set].
-    destruct (in_term s).
-    + apply bal_do_close. bal_norm. exact H.
-    + apply bal_escape, bal_send_sess_term. bal_norm. exact H.
-  - bal_norm. exact H.
-Qed.
-
-(** [sent_accounting] *)
-Theorem sent_accounting : forall c ops,
-  wire (run c ops) ++ conn_tx (run c ops) ++ msg_tx (run c ops) = enc (sent (run c ops)).
-Proof.
-  intros c ops. apply (run_invariant bal c); [reflexivity|intros; apply bal_step; assumption].
-Qed.
